@@ -220,7 +220,7 @@ fn emit_wrapped_loop_choice_body(
 
         if choice.has_choice_only_content
             && !choice.has_start_content
-            && matches!(choice.body.as_slice(), [Node::Divert(_)])
+            && choice_body_is_divert(choice)
         {
             branch_nodes.extend(tokenize_inline_content(&format!(" {selected_text}"))?);
             if choice.body_divert_is_inline {
@@ -249,10 +249,10 @@ fn emit_wrapped_loop_choice_body(
             let body_is_terminal_divert = choice.body_divert_is_inline
                 && matches!(
                     choice.body.as_slice(),
-                    [Node::Divert(d)] if d.target == "END" || d.target == "DONE"
+                    [Node::Divert(d), ..] if d.target == "END" || d.target == "DONE"
                 );
             let body_is_inline_divert = choice.body_divert_is_inline
-                && matches!(choice.body.as_slice(), [Node::Divert(_)])
+                && choice_body_is_divert(choice)
                 && selected_text.ends_with(char::is_whitespace);
             if !body_is_terminal_divert && !body_is_inline_divert {
                 branch_nodes.push(Node::Newline);
@@ -260,7 +260,7 @@ fn emit_wrapped_loop_choice_body(
         }
     } else if choice.has_choice_only_content
         && !choice.has_start_content
-        && matches!(choice.body.as_slice(), [Node::Divert(_)])
+        && choice_body_is_divert(choice)
     {
         if choice.body_divert_is_inline {
             branch_nodes.push(Node::Text(" ".to_owned()));
